@@ -71,8 +71,7 @@ def _is(case, gens, n, rooted):
     return _f(case, "gen") in gens and _f(case, "n") == str(n) and _f(case, "rooted") == ("T" if rooted else "F")
 
 MATCHERS = {
-    # RandomUniform/Yule/CaterpillarBinaryTree(2, false): RerootFirst fails, then ReinitIndexes dereferences a nil edge
-    "C16-unrooted-2tips-crash": lambda c: _is(c, ("uniform", "yule", "caterpillar"), 2, False),
-    # RandomBalancedBinaryTree(1, false): UnRoot leaves a tip as root, ReinitIndexes crashes
-    "C16-balanced-depth1-unrooted-crash": lambda c: _is(c, ("balanced",), 1, False),
+    # RandomUniform/Yule/CaterpillarBinaryTree(2, false): the documented minimum ("less than 2 tips" is what is
+    # rejected) returns the error of RerootFirst ("No nodes with 3 neighors ...") together with the tree
+    "C16-unrooted-2tips-rejected": lambda c: _is(c, ("uniform", "yule", "caterpillar"), 2, False),
 }
